@@ -28,6 +28,9 @@ pub enum Act {
     /// a try_read that finds end of input (0), nothing (EAGAIN, 1) or a read error (ECONNRESET, 2): what
     /// happens on the read half decides nothing about queued output
     ReadNothing(u8),
+    /// a try_read that receives malformed input and reports a parse error: the read half starts over,
+    /// queued output stays as it is
+    ReadBad,
 }
 
 fn act_name(a: &Act) -> String {
@@ -37,6 +40,7 @@ fn act_name(a: &Act) -> String {
         Act::ReadExpect(v) => format!("readexpect{}", v),
         Act::Clear => "clear".into(),
         Act::ReadNothing(k) => format!("readnothing{}", k),
+        Act::ReadBad => "readbad".into(),
         Act::W(WriteEv::Accept(k)) => format!("w:accept{}", k),
         Act::W(WriteEv::AcceptAllBut(j)) => format!("w:len-{}", j),
         Act::W(WriteEv::AcceptHalf) => "w:half".into(),
@@ -56,6 +60,9 @@ fn parse_act(s: &str) -> Option<Act> {
     }
     if s == "clear" {
         return Some(Act::Clear);
+    }
+    if s == "readbad" {
+        return Some(Act::ReadBad);
     }
     if let Some(r) = s.strip_prefix("readnothing") {
         return r.parse().ok().map(Act::ReadNothing);
@@ -146,6 +153,29 @@ pub fn exec(ctx: &mut Ctx, acts: &[Act]) -> bool {
                 }
                 if r.script.write_calls() != writes_before {
                     fault = Some(("enqueue-wrote".into(), "enqueue_response touched the stream".into()));
+                    break;
+                }
+            }
+            Act::ReadBad => {
+                let so = r.feed(ReadEv::Data(b"this is not http\r\n\r\n".to_vec(), Vec::new()));
+                match &so.res {
+                    RR::Panic(p) => {
+                        fault = Some(("panic".into(), format!("try_read panicked: {}", p)));
+                        break;
+                    }
+                    RR::Parse(_) => {
+                        if cur.is_some() || !queue.is_empty() {
+                            ctx.rep.count("parse_errors_with_output_pending");
+                        }
+                    }
+                    _ => {
+                        ctx.rep.count("readbad_not_rejected");
+                        break;
+                    }
+                }
+                r.script.clear_reads();
+                if r.script.write_calls() != writes_before {
+                    fault = Some(("read-wrote".into(), "try_read wrote to the stream".into()));
                     break;
                 }
             }
@@ -397,7 +427,8 @@ pub fn run(ctx: &mut Ctx) {
         }
     }
     // ---- the same with output the connection enqueues itself (interim responses) in the alphabet
-    const ALPHABET2: [Act; 11] = [
+    const ALPHABET2: [Act; 12] = [
+        Act::ReadBad,
         Act::ReadNothing(0),
         Act::ReadNothing(2),
         Act::Clear,
@@ -422,7 +453,7 @@ pub fn run(ctx: &mut Ctx) {
             acts.push(ALPHABET2[(x % base2) as usize]);
             x /= base2;
         }
-        if !acts.iter().any(|a| matches!(a, Act::ReadExpect(_) | Act::Clear | Act::ReadNothing(_))) {
+        if !acts.iter().any(|a| matches!(a, Act::ReadExpect(_) | Act::Clear | Act::ReadNothing(_) | Act::ReadBad)) {
             continue; // covered by the first pass
         }
         for _ in 0..3 {
@@ -484,6 +515,10 @@ pub fn run(ctx: &mut Ctx) {
                 }
                 if rng.chance(1, 20) {
                     acts.push(Act::ReadNothing(rng.below(3) as u8));
+                    continue;
+                }
+                if rng.chance(1, 25) {
+                    acts.push(Act::ReadBad);
                     continue;
                 }
                 let ev = match rng.below(14) {
